@@ -67,7 +67,7 @@ Definition AR (sv : svc) (ib : option block) : Prop :=
   res_ok (kd sv) (cols sv) (results sv) /\
   match inflight sv with
   | None => True
-  | Some po => ib = Some (p_cols po) /\ res_ok (kd sv) (p_cols po) (p_res po)
+  | Some po => (p_sent po = true -> ib = Some (p_cols po)) /\ res_ok (kd sv) (p_cols po) (p_res po)
   end.
 
 Definition svc_pids_ok (H : list handler) (sv : svc) : Prop :=
@@ -176,7 +176,7 @@ Proof.
   pose proof G as [G1 G2 G3 G4 G5 G6 G7].
   destruct (Forall2_nth_error_l _ _ _ _ _ G1 Hs) as (ib & Hib & Har).
   pose proof (Forall_nth_error _ _ _ _ G4 Hs) as Hpids.
-  destruct a as [p r sz| |ok| |ok| |]; cbn in Hstep.
+  destruct a as [p r sz| |ok| | |ok| |]; cbn in Hstep.
   - (* SRequest *)
     destruct (Hside p r sz sv eq_refl eq_refl) as [Hok Hpid].
     destruct (running sv) eqn:Hrun; cbn in Hstep.
@@ -237,18 +237,30 @@ Proof.
     + inversion Hstep; subst sv' vs; clear Hstep. cbn in Hap. inversion Hap; subst st' es0; clear Hap.
       exists m. split; [reflexivity|]. split; [|auto]. eapply GA_flag_step; eauto.
     + inversion Hstep; subst sv' vs; clear Hstep. cbn in Hap. inversion Hap; subst st' es0; clear Hap.
-      cbn [app run_mon amon_step]. rewrite Hib.
-      eexists. split; [reflexivity|]. split; [|auto].
+      exists m. split; [reflexivity|]. split; [|auto].
       destruct Har as (A0 & A1 & A2). destruct Hpids as [P1 P2].
       constructor; cbn; auto.
-      * apply Forall2_upd; [assumption|]. unfold AR; cbn [cols kd results inflight set_cols p_cols p_res]. split; [apply length_empty_cols|].
-        split; [intros ? ? []|]. split; [reflexivity|assumption].
+      * eapply Forall2_upd_l; eauto. unfold AR; cbn [cols kd results inflight set_cols p_cols p_res p_sent].
+        split; [apply length_empty_cols|]. split; [intros ? ? []|]. split; [discriminate|assumption].
       * apply Forall_upd; [assumption|]. split; cbn; [intros ? ? []|].
         intros po Hpo. inversion Hpo; subst po. cbn. exact P1.
+  - (* SSend *)
+    destruct (inflight sv) as [po|] eqn:Hinf; [|discriminate].
+    destruct (p_sent po) eqn:Hsent; [discriminate|].
+    inversion Hstep; subst sv' vs; clear Hstep. cbn in Hap. inversion Hap; subst st' es0; clear Hap.
+    cbn [app run_mon amon_step]. rewrite Hib.
+    eexists. split; [reflexivity|]. split; [|auto].
+    destruct Har as (A0 & A1 & A2). rewrite Hinf in A2. destruct A2 as [_ A2]. destruct Hpids as [P1 P2].
+    constructor; cbn; auto.
+    + apply Forall2_upd; [assumption|]. unfold AR; cbn [cols kd results inflight set_cols p_cols p_res p_sent].
+      split; [assumption|]. split; [assumption|]. split; [reflexivity|assumption].
+    + apply Forall_upd; [assumption|]. split; cbn; [assumption|].
+      intros po' Hpo. inversion Hpo; subst po'. cbn. eapply P2; eauto.
   - (* SDoReturn *)
     destruct (inflight sv) as [po|] eqn:Hinf; [|discriminate].
+    destruct (p_sent po) eqn:Hsent; [|discriminate]. cbn [negb] in Hstep.
     inversion Hstep; subst sv' vs; clear Hstep.
-    destruct Har as (A0 & A1 & A2). rewrite Hinf in A2. destruct A2 as [Eib A2]. subst ib.
+    destruct Har as (A0 & A1 & A2). rewrite Hinf in A2. destruct A2 as [Eib A2]. specialize (Eib Hsent). subst ib.
     cbn [apply_sevs] in Hap.
     set (m1 := {| a_infl := upd s None (a_infl m);
                   a_acked := if ok then p_cols po :: a_acked m else a_acked m |}).
